@@ -1,4 +1,6 @@
-"""MANIFEST.setup_cmd: regenerate every table from /repo and build the whole Lean project offline."""
+"""MANIFEST.setup_cmd: regenerate every table from /repo and build the Lean targets of every published check
+(claims/READY), offline.  Unpublished (in-progress) properties are not built here."""
+import os
 import subprocess
 import sys
 
@@ -8,20 +10,23 @@ from translator import extract
 
 def main():
     common.use_repo()
-    for prop in extract.all_props():
+    ready = open(os.path.join(common.ROOT, 'claims', 'READY')).read().split()
+    targets = []
+    lakefile = open(os.path.join(common.LEAN, 'lakefile.toml')).read()
+    for prop in ready:
         st = extract.generate(prop)
         bad = {k: v for k, v in st.items() if not v[0]}
         if bad:
             print(f'setup: translator could not read {prop}: {bad}', file=sys.stderr)
-    import os, re
-    # audit files are regenerated by each check; make sure a stub exists so the glob build is complete
-    props_dir = os.path.join(common.LEAN, 'PytezosModel', 'Props')
-    for fn in sorted(os.listdir(props_dir)):
-        if fn.endswith('.lean'):
-            prop = fn[:-5]
-            thms = common.theorem_names(prop)
-            common.write_if_changed(os.path.join(common.LEAN, 'PytezosModel', 'Audit', fn),
-                                    f'import PytezosModel.Props.{prop}\n' + ''.join(f'#print axioms {t}\n' for t in thms))
+        thms = common.theorem_names(prop)
+        common.write_if_changed(os.path.join(common.LEAN, 'PytezosModel', 'Audit', f'{prop}.lean'),
+                                f'import PytezosModel.Props.{prop}\n' + ''.join(f'#print axioms {t}\n' for t in thms))
+        targets += [f'PytezosModel.Props.{prop}', f'Driver.{prop}']
+        if f'name = "drv_{prop.lower()}"' in lakefile:
+            targets.append(f'drv_{prop.lower()}')
     with common.BuildLock():
-        p = subprocess.run(['lake', 'build'], cwd=common.LEAN)
+        p = subprocess.run(['lake', 'build', *targets], cwd=common.LEAN, stdout=subprocess.PIPE, stderr=subprocess.STDOUT, text=True)
+    if p.returncode != 0:
+        print(p.stdout[-6000:])
+    print(f'setup: built {len(targets)} targets for {len(ready)} properties -> rc {p.returncode}')
     return 0 if p.returncode == 0 else 1
